@@ -61,6 +61,7 @@ type Timer struct {
 	t  *time.Timer
 	vt *vs.VTimer
 	f  func()
+	fl map[string]bool
 }
 
 func NewTimer(d Duration) *Timer {
@@ -79,7 +80,7 @@ func NewTimer(d Duration) *Timer {
 
 func (t *Timer) fire() {
 	if t.f != nil {
-		vs.Go("afterfunc", t.f)
+		vs.GoWithFlags("afterfunc", t.fl, t.f)
 		return
 	}
 	select {
@@ -95,7 +96,7 @@ func AfterFunc(d Duration, f func()) *Timer {
 		}
 		return &Timer{t: time.AfterFunc(d, f)}
 	}
-	tm := &Timer{f: f}
+	tm := &Timer{f: f, fl: vs.CurFlags()}
 	tm.vt = vs.AddTimer(d, tm.fire)
 	return tm
 }
